@@ -1038,7 +1038,7 @@ impl Property for P16 {
     fn random_runs(tier: Tier) -> u64 {
         match tier {
             Tier::Quick => 1_500_000,
-            Tier::Thorough => 150_000_000,
+            Tier::Thorough => 100_000_000,
         }
     }
 
